@@ -108,3 +108,9 @@ Definition ok_unpack (c: pcase) : bool :=
   let E := env_of c in
   wconforms E c.(pc_in) c.(pc_ty) && all_old n0 c.(pc_in) &&
   lv_eqb (norm (fst (unpack_top E c.(pc_ty) c.(pc_in) n0))) (norm c.(pc_out)).
+
+(* domain flag of the encode-side theorem (C18_share) and totality of the model on a case *)
+Definition pack_udet (c: pcase) : bool :=
+  udet (env_of c) c.(pc_in) c.(pc_call) c.(pc_ntop) true c.(pc_ty).
+Definition pack_accepts (c: pcase) : bool :=
+  accepts c.(pc_in) (cp (env_of c) c.(pc_ntop) true c.(pc_ty)).
